@@ -66,13 +66,13 @@ def group_outputs(model, subset, inputs, results, x, names, unique=True):
 
 
 class SageRef:
-    def __init__(self, names, dyn, alpha, lbib, model, loss):
+    def __init__(self, names, dyn, alpha, lbib, model, loss, fast=False):
         self.names, self.dyn, self.alpha, self.lbib = list(names), dyn, alpha, lbib
         self.model, self.loss = model, loss
-        self.imp = {n: RefStat(dyn, alpha) for n in names}
-        self.var = {n: RefStat(dyn, alpha) for n in names}
-        self.marg, self.mod = RefStat(dyn, alpha), RefStat(dyn, alpha)
-        self.pred = RefMulti(dyn, alpha)
+        self.imp = {n: RefStat(dyn, alpha, fast) for n in names}
+        self.var = {n: RefStat(dyn, alpha, fast) for n in names}
+        self.marg, self.mod = RefStat(dyn, alpha, fast), RefStat(dyn, alpha, fast)
+        self.pred = RefMulti(dyn, alpha, fast)
         self.explained = 0
         self.unique = True
         self.last_order = None
@@ -121,11 +121,11 @@ class SageRef:
 
 
 class PfiRef:
-    def __init__(self, names, dyn, alpha, model, loss):
+    def __init__(self, names, dyn, alpha, model, loss, fast=False):
         self.names, self.dyn, self.alpha = list(names), dyn, alpha
         self.model, self.loss = model, loss
-        self.imp = {n: RefStat(dyn, alpha) for n in names}
-        self.var = {n: RefStat(dyn, alpha) for n in names}
+        self.imp = {n: RefStat(dyn, alpha, fast) for n in names}
+        self.var = {n: RefStat(dyn, alpha, fast) for n in names}
         self.unique = True
         self.last_contrib = None
 
